@@ -218,7 +218,7 @@ harness!(can_cast_to_reference, 2, {
 // ---------------------------------------------------------------------------------------------
 // numeric x numeric: all 13 operators
 
-//# harness binary_integer_integer tier=quick tier.C06=thorough label=complete props=C12,C06 fn=rusty_linter/src/core/casting.rs::cast_binary_op_q timeout=600
+//# harness binary_integer_integer tier=quick tier.C06=thorough label=complete props=C12,C06 fn=rusty_linter/src/core/casting.rs::cast_binary_op_q timeout=1200
 harness!(binary_integer_integer, 1, {
     let a = vs::i32();
     vs::assume(a >= -32768 && a <= 32767);
@@ -262,7 +262,7 @@ harness!(binary_integer_integer, 1, {
     reach!(out == Out::OtherError);
 });
 
-//# harness logical_integer_integer tier=quick tier.C06=thorough label=complete props=C12,C06 fn=rusty_linter/src/core/casting.rs::cast_binary_op_q timeout=600
+//# harness logical_integer_integer tier=quick tier.C06=thorough label=complete props=C12,C06 fn=rusty_linter/src/core/casting.rs::cast_binary_op_q timeout=1200
 harness!(logical_integer_integer, 18, {
     let a = vs::i32();
     vs::assume(a >= -32768 && a <= 32767);
@@ -288,7 +288,7 @@ harness!(finding_f5_divide_integer_integer, 1, {
     check(Q::PercentInteger, Q::PercentInteger, Operator::Divide, out, false);
 });
 
-//# harness binary_integer_long tier=quick tier.C06=thorough label=complete props=C12,C06 fn=rusty_linter/src/core/casting.rs::cast_binary_op_q timeout=600
+//# harness binary_integer_long tier=quick tier.C06=thorough label=complete props=C12,C06 fn=rusty_linter/src/core/casting.rs::cast_binary_op_q timeout=1200
 harness!(binary_integer_long, 1, {
     let a = vs::i32();
     vs::assume(a >= -32768 && a <= 32767);
@@ -332,7 +332,7 @@ harness!(binary_integer_long, 1, {
     reach!(out == Out::OtherError);
 });
 
-//# harness logical_integer_long tier=quick tier.C06=thorough label=complete props=C12,C06 fn=rusty_linter/src/core/casting.rs::cast_binary_op_q timeout=600
+//# harness logical_integer_long tier=quick tier.C06=thorough label=complete props=C12,C06 fn=rusty_linter/src/core/casting.rs::cast_binary_op_q timeout=1200
 harness!(logical_integer_long, 18, {
     let a = vs::i32();
     vs::assume(a >= -32768 && a <= 32767);
@@ -358,7 +358,7 @@ harness!(finding_f5_divide_integer_long, 1, {
     check(Q::PercentInteger, Q::AmpersandLong, Operator::Divide, out, false);
 });
 
-//# harness binary_integer_single tier=quick tier.C06=thorough label=complete props=C12,C06 fn=rusty_linter/src/core/casting.rs::cast_binary_op_q timeout=600
+//# harness binary_integer_single tier=quick tier.C06=thorough label=complete props=C12,C06 fn=rusty_linter/src/core/casting.rs::cast_binary_op_q timeout=1200
 harness!(binary_integer_single, 1, {
     let a = vs::i32();
     vs::assume(a >= -32768 && a <= 32767);
@@ -405,7 +405,7 @@ harness!(binary_integer_single, 1, {
     reach!(out == Out::OtherError);
 });
 
-//# harness logical_integer_single tier=quick tier.C06=thorough label=complete props=C12,C06 fn=rusty_linter/src/core/casting.rs::cast_binary_op_q timeout=600
+//# harness logical_integer_single tier=quick tier.C06=thorough label=complete props=C12,C06 fn=rusty_linter/src/core/casting.rs::cast_binary_op_q timeout=1200
 harness!(logical_integer_single, 18, {
     let a = vs::i32();
     vs::assume(a >= -32768 && a <= 32767);
@@ -431,7 +431,7 @@ harness!(finding_f5_divide_integer_single, 1, {
     check(Q::PercentInteger, Q::BangSingle, Operator::Divide, out, false);
 });
 
-//# harness binary_integer_double tier=quick tier.C06=thorough label=complete props=C12,C06 fn=rusty_linter/src/core/casting.rs::cast_binary_op_q timeout=600
+//# harness binary_integer_double tier=quick tier.C06=thorough label=complete props=C12,C06 fn=rusty_linter/src/core/casting.rs::cast_binary_op_q timeout=1200
 harness!(binary_integer_double, 1, {
     let a = vs::i32();
     vs::assume(a >= -32768 && a <= 32767);
@@ -478,7 +478,7 @@ harness!(binary_integer_double, 1, {
     reach!(out == Out::OtherError);
 });
 
-//# harness logical_integer_double tier=quick tier.C06=thorough label=complete props=C12,C06 fn=rusty_linter/src/core/casting.rs::cast_binary_op_q timeout=600
+//# harness logical_integer_double tier=quick tier.C06=thorough label=complete props=C12,C06 fn=rusty_linter/src/core/casting.rs::cast_binary_op_q timeout=1200
 harness!(logical_integer_double, 18, {
     let a = vs::i32();
     vs::assume(a >= -32768 && a <= 32767);
@@ -504,7 +504,7 @@ harness!(finding_f5_divide_integer_double, 1, {
     check(Q::PercentInteger, Q::HashDouble, Operator::Divide, out, false);
 });
 
-//# harness binary_long_integer tier=quick tier.C06=thorough label=complete props=C12,C06 fn=rusty_linter/src/core/casting.rs::cast_binary_op_q timeout=600
+//# harness binary_long_integer tier=quick tier.C06=thorough label=complete props=C12,C06 fn=rusty_linter/src/core/casting.rs::cast_binary_op_q timeout=1200
 harness!(binary_long_integer, 1, {
     let a = vs::i64();
     vs::assume(a >= -2147483648 && a <= 2147483647);
@@ -548,7 +548,7 @@ harness!(binary_long_integer, 1, {
     reach!(out == Out::OtherError);
 });
 
-//# harness logical_long_integer tier=quick tier.C06=thorough label=complete props=C12,C06 fn=rusty_linter/src/core/casting.rs::cast_binary_op_q timeout=600
+//# harness logical_long_integer tier=quick tier.C06=thorough label=complete props=C12,C06 fn=rusty_linter/src/core/casting.rs::cast_binary_op_q timeout=1200
 harness!(logical_long_integer, 18, {
     let a = vs::i64();
     vs::assume(a >= -2147483648 && a <= 2147483647);
@@ -574,7 +574,7 @@ harness!(finding_f5_divide_long_integer, 1, {
     check(Q::AmpersandLong, Q::PercentInteger, Operator::Divide, out, false);
 });
 
-//# harness binary_long_long tier=quick tier.C06=thorough label=complete props=C12,C06 fn=rusty_linter/src/core/casting.rs::cast_binary_op_q timeout=600
+//# harness binary_long_long tier=quick tier.C06=thorough label=complete props=C12,C06 fn=rusty_linter/src/core/casting.rs::cast_binary_op_q timeout=1200
 harness!(binary_long_long, 1, {
     let a = vs::i64();
     vs::assume(a >= -2147483648 && a <= 2147483647);
@@ -618,7 +618,7 @@ harness!(binary_long_long, 1, {
     reach!(out == Out::OtherError);
 });
 
-//# harness logical_long_long tier=quick tier.C06=thorough label=complete props=C12,C06 fn=rusty_linter/src/core/casting.rs::cast_binary_op_q timeout=600
+//# harness logical_long_long tier=quick tier.C06=thorough label=complete props=C12,C06 fn=rusty_linter/src/core/casting.rs::cast_binary_op_q timeout=1200
 harness!(logical_long_long, 18, {
     let a = vs::i64();
     vs::assume(a >= -2147483648 && a <= 2147483647);
@@ -644,7 +644,7 @@ harness!(finding_f5_divide_long_long, 1, {
     check(Q::AmpersandLong, Q::AmpersandLong, Operator::Divide, out, false);
 });
 
-//# harness binary_long_single tier=quick tier.C06=thorough label=complete props=C12,C06 fn=rusty_linter/src/core/casting.rs::cast_binary_op_q timeout=600
+//# harness binary_long_single tier=quick tier.C06=thorough label=complete props=C12,C06 fn=rusty_linter/src/core/casting.rs::cast_binary_op_q timeout=1200
 harness!(binary_long_single, 1, {
     let a = vs::i64();
     vs::assume(a >= -2147483648 && a <= 2147483647);
@@ -691,7 +691,7 @@ harness!(binary_long_single, 1, {
     reach!(out == Out::OtherError);
 });
 
-//# harness logical_long_single tier=quick tier.C06=thorough label=complete props=C12,C06 fn=rusty_linter/src/core/casting.rs::cast_binary_op_q timeout=600
+//# harness logical_long_single tier=quick tier.C06=thorough label=complete props=C12,C06 fn=rusty_linter/src/core/casting.rs::cast_binary_op_q timeout=1200
 harness!(logical_long_single, 18, {
     let a = vs::i64();
     vs::assume(a >= -2147483648 && a <= 2147483647);
@@ -717,7 +717,7 @@ harness!(finding_f5_divide_long_single, 1, {
     check(Q::AmpersandLong, Q::BangSingle, Operator::Divide, out, false);
 });
 
-//# harness binary_long_double tier=quick tier.C06=thorough label=complete props=C12,C06 fn=rusty_linter/src/core/casting.rs::cast_binary_op_q timeout=600
+//# harness binary_long_double tier=quick tier.C06=thorough label=complete props=C12,C06 fn=rusty_linter/src/core/casting.rs::cast_binary_op_q timeout=1200
 harness!(binary_long_double, 1, {
     let a = vs::i64();
     vs::assume(a >= -2147483648 && a <= 2147483647);
@@ -764,7 +764,7 @@ harness!(binary_long_double, 1, {
     reach!(out == Out::OtherError);
 });
 
-//# harness logical_long_double tier=quick tier.C06=thorough label=complete props=C12,C06 fn=rusty_linter/src/core/casting.rs::cast_binary_op_q timeout=600
+//# harness logical_long_double tier=quick tier.C06=thorough label=complete props=C12,C06 fn=rusty_linter/src/core/casting.rs::cast_binary_op_q timeout=1200
 harness!(logical_long_double, 18, {
     let a = vs::i64();
     vs::assume(a >= -2147483648 && a <= 2147483647);
@@ -790,7 +790,7 @@ harness!(finding_f5_divide_long_double, 1, {
     check(Q::AmpersandLong, Q::HashDouble, Operator::Divide, out, false);
 });
 
-//# harness binary_single_integer tier=quick tier.C06=thorough label=complete props=C12,C06 fn=rusty_linter/src/core/casting.rs::cast_binary_op_q timeout=600
+//# harness binary_single_integer tier=quick tier.C06=thorough label=complete props=C12,C06 fn=rusty_linter/src/core/casting.rs::cast_binary_op_q timeout=1200
 harness!(binary_single_integer, 1, {
     let a = vs::f32();
     vs::assume(a.is_finite());
@@ -837,7 +837,7 @@ harness!(binary_single_integer, 1, {
     reach!(out == Out::OtherError);
 });
 
-//# harness logical_single_integer tier=quick tier.C06=thorough label=complete props=C12,C06 fn=rusty_linter/src/core/casting.rs::cast_binary_op_q timeout=600
+//# harness logical_single_integer tier=quick tier.C06=thorough label=complete props=C12,C06 fn=rusty_linter/src/core/casting.rs::cast_binary_op_q timeout=1200
 harness!(logical_single_integer, 18, {
     let a = vs::f32();
     vs::assume(a.is_finite());
@@ -863,7 +863,7 @@ harness!(finding_f5_divide_single_integer, 1, {
     check(Q::BangSingle, Q::PercentInteger, Operator::Divide, out, false);
 });
 
-//# harness binary_single_long tier=quick tier.C06=thorough label=complete props=C12,C06 fn=rusty_linter/src/core/casting.rs::cast_binary_op_q timeout=600
+//# harness binary_single_long tier=quick tier.C06=thorough label=complete props=C12,C06 fn=rusty_linter/src/core/casting.rs::cast_binary_op_q timeout=1200
 harness!(binary_single_long, 1, {
     let a = vs::f32();
     vs::assume(a.is_finite());
@@ -910,7 +910,7 @@ harness!(binary_single_long, 1, {
     reach!(out == Out::OtherError);
 });
 
-//# harness logical_single_long tier=quick tier.C06=thorough label=complete props=C12,C06 fn=rusty_linter/src/core/casting.rs::cast_binary_op_q timeout=600
+//# harness logical_single_long tier=quick tier.C06=thorough label=complete props=C12,C06 fn=rusty_linter/src/core/casting.rs::cast_binary_op_q timeout=1200
 harness!(logical_single_long, 18, {
     let a = vs::f32();
     vs::assume(a.is_finite());
@@ -936,7 +936,7 @@ harness!(finding_f5_divide_single_long, 1, {
     check(Q::BangSingle, Q::AmpersandLong, Operator::Divide, out, false);
 });
 
-//# harness binary_single_single tier=quick tier.C06=thorough label=complete props=C12,C06 fn=rusty_linter/src/core/casting.rs::cast_binary_op_q timeout=600
+//# harness binary_single_single tier=quick tier.C06=thorough label=complete props=C12,C06 fn=rusty_linter/src/core/casting.rs::cast_binary_op_q timeout=1200
 harness!(binary_single_single, 1, {
     let a = vs::f32();
     vs::assume(a.is_finite());
@@ -986,7 +986,7 @@ harness!(binary_single_single, 1, {
     reach!(out == Out::OtherError);
 });
 
-//# harness logical_single_single tier=quick tier.C06=thorough label=complete props=C12,C06 fn=rusty_linter/src/core/casting.rs::cast_binary_op_q timeout=600
+//# harness logical_single_single tier=quick tier.C06=thorough label=complete props=C12,C06 fn=rusty_linter/src/core/casting.rs::cast_binary_op_q timeout=1200
 harness!(logical_single_single, 18, {
     let a = vs::f32();
     vs::assume(a.is_finite());
@@ -1012,7 +1012,7 @@ harness!(finding_f5_divide_single_single, 1, {
     check(Q::BangSingle, Q::BangSingle, Operator::Divide, out, false);
 });
 
-//# harness binary_single_double tier=quick tier.C06=thorough label=complete props=C12,C06 fn=rusty_linter/src/core/casting.rs::cast_binary_op_q timeout=600
+//# harness binary_single_double tier=quick tier.C06=thorough label=complete props=C12,C06 fn=rusty_linter/src/core/casting.rs::cast_binary_op_q timeout=1200
 harness!(binary_single_double, 1, {
     let a = vs::f32();
     vs::assume(a.is_finite());
@@ -1062,7 +1062,7 @@ harness!(binary_single_double, 1, {
     reach!(out == Out::OtherError);
 });
 
-//# harness logical_single_double tier=quick tier.C06=thorough label=complete props=C12,C06 fn=rusty_linter/src/core/casting.rs::cast_binary_op_q timeout=600
+//# harness logical_single_double tier=quick tier.C06=thorough label=complete props=C12,C06 fn=rusty_linter/src/core/casting.rs::cast_binary_op_q timeout=1200
 harness!(logical_single_double, 18, {
     let a = vs::f32();
     vs::assume(a.is_finite());
@@ -1088,7 +1088,7 @@ harness!(finding_f5_divide_single_double, 1, {
     check(Q::BangSingle, Q::HashDouble, Operator::Divide, out, false);
 });
 
-//# harness binary_double_integer tier=quick tier.C06=thorough label=complete props=C12,C06 fn=rusty_linter/src/core/casting.rs::cast_binary_op_q timeout=600
+//# harness binary_double_integer tier=quick tier.C06=thorough label=complete props=C12,C06 fn=rusty_linter/src/core/casting.rs::cast_binary_op_q timeout=1200
 harness!(binary_double_integer, 1, {
     let a = vs::f64();
     vs::assume(a.is_finite());
@@ -1135,7 +1135,7 @@ harness!(binary_double_integer, 1, {
     reach!(out == Out::OtherError);
 });
 
-//# harness logical_double_integer tier=quick tier.C06=thorough label=complete props=C12,C06 fn=rusty_linter/src/core/casting.rs::cast_binary_op_q timeout=600
+//# harness logical_double_integer tier=quick tier.C06=thorough label=complete props=C12,C06 fn=rusty_linter/src/core/casting.rs::cast_binary_op_q timeout=1200
 harness!(logical_double_integer, 18, {
     let a = vs::f64();
     vs::assume(a.is_finite());
@@ -1161,7 +1161,7 @@ harness!(finding_f5_divide_double_integer, 1, {
     check(Q::HashDouble, Q::PercentInteger, Operator::Divide, out, false);
 });
 
-//# harness binary_double_long tier=quick tier.C06=thorough label=complete props=C12,C06 fn=rusty_linter/src/core/casting.rs::cast_binary_op_q timeout=600
+//# harness binary_double_long tier=quick tier.C06=thorough label=complete props=C12,C06 fn=rusty_linter/src/core/casting.rs::cast_binary_op_q timeout=1200
 harness!(binary_double_long, 1, {
     let a = vs::f64();
     vs::assume(a.is_finite());
@@ -1208,7 +1208,7 @@ harness!(binary_double_long, 1, {
     reach!(out == Out::OtherError);
 });
 
-//# harness logical_double_long tier=quick tier.C06=thorough label=complete props=C12,C06 fn=rusty_linter/src/core/casting.rs::cast_binary_op_q timeout=600
+//# harness logical_double_long tier=quick tier.C06=thorough label=complete props=C12,C06 fn=rusty_linter/src/core/casting.rs::cast_binary_op_q timeout=1200
 harness!(logical_double_long, 18, {
     let a = vs::f64();
     vs::assume(a.is_finite());
@@ -1234,7 +1234,7 @@ harness!(finding_f5_divide_double_long, 1, {
     check(Q::HashDouble, Q::AmpersandLong, Operator::Divide, out, false);
 });
 
-//# harness binary_double_single tier=quick tier.C06=thorough label=complete props=C12,C06 fn=rusty_linter/src/core/casting.rs::cast_binary_op_q timeout=600
+//# harness binary_double_single tier=quick tier.C06=thorough label=complete props=C12,C06 fn=rusty_linter/src/core/casting.rs::cast_binary_op_q timeout=1200
 harness!(binary_double_single, 1, {
     let a = vs::f64();
     vs::assume(a.is_finite());
@@ -1284,7 +1284,7 @@ harness!(binary_double_single, 1, {
     reach!(out == Out::OtherError);
 });
 
-//# harness logical_double_single tier=quick tier.C06=thorough label=complete props=C12,C06 fn=rusty_linter/src/core/casting.rs::cast_binary_op_q timeout=600
+//# harness logical_double_single tier=quick tier.C06=thorough label=complete props=C12,C06 fn=rusty_linter/src/core/casting.rs::cast_binary_op_q timeout=1200
 harness!(logical_double_single, 18, {
     let a = vs::f64();
     vs::assume(a.is_finite());
@@ -1310,7 +1310,7 @@ harness!(finding_f5_divide_double_single, 1, {
     check(Q::HashDouble, Q::BangSingle, Operator::Divide, out, false);
 });
 
-//# harness binary_double_double tier=quick tier.C06=thorough label=complete props=C12,C06 fn=rusty_linter/src/core/casting.rs::cast_binary_op_q timeout=600
+//# harness binary_double_double tier=quick tier.C06=thorough label=complete props=C12,C06 fn=rusty_linter/src/core/casting.rs::cast_binary_op_q timeout=1200
 harness!(binary_double_double, 1, {
     let a = vs::f64();
     vs::assume(a.is_finite());
@@ -1360,7 +1360,7 @@ harness!(binary_double_double, 1, {
     reach!(out == Out::OtherError);
 });
 
-//# harness logical_double_double tier=quick tier.C06=thorough label=complete props=C12,C06 fn=rusty_linter/src/core/casting.rs::cast_binary_op_q timeout=600
+//# harness logical_double_double tier=quick tier.C06=thorough label=complete props=C12,C06 fn=rusty_linter/src/core/casting.rs::cast_binary_op_q timeout=1200
 harness!(logical_double_double, 18, {
     let a = vs::f64();
     vs::assume(a.is_finite());
